@@ -45,6 +45,8 @@ for pid, sel in _take.items():
             import copy
             nq = copy.copy(oq); nq.name = pid + "_" + oq.name
             nq.defs = list(oq.defs) + ["EXACTBUF"]; nq.name += "_exactbuf"
+            if pid == "C10" and oq.name == "body_m64_d+0_min0":
+                nq.tier = "quick"      # 32 rings: the class in which the fixed signs[31] / rsizes[32] / pubs[128] arrays are full
             QUERIES.append(nq)
 LEVEL_TEXT = ("Bounded model checking of every parsing / verification entry point on input objects of exactly the declared (symbolic) length with all of CBMC's memory-safety and undefined-behaviour checks, counting callbacks, "
               "consumer calls on successfully parsed objects and leak checking with failing allocation; large formats (range proof, whitelist, surjection proof, norm argument) per size class.")
